@@ -35,6 +35,8 @@
 //!     N <TAB> i <TAB> name                UT_TYPE_VAL_TO_STR[i]
 //! `c08 render`  in: type <TAB> hex(entry)            out: `R <hex of as_bytes>` | `F <hex>` (InfoAsBytes::Fail) | `NONE` | `PANIC`
 //! `c08 score`   in: type <TAB> bonus <TAB> hex(entry) out: `S <score>` | `NONE` | `PANIC`
+//! `c08 kindof`  in: path                            out: kind index 0..5 the library's path_to_filetype derives from the
+//!               file NAME (`-` when it is not a FixedStruct type)
 //! `c08 detect`  in: path <TAB> kind <TAB> blocksz <TAB> T1:b1,T2:b2,... <TAB> repeat
 //!               out: `D <T1>=<score|->,... | <type>:<high_score> x repeat` (FixedStructReader::new run `repeat` times;
 //!               per-candidate scores from FixedStructReader::score_file with a one-element candidate set)
@@ -537,6 +539,21 @@ fn score_case(line: &str) -> String {
     }
 }
 
+fn kindof_case(line: &str) -> String {
+    use s4lib::readers::filepreprocessor::{path_to_filetype, PathToFiletypeResult};
+    match path_to_filetype(std::path::Path::new(line), true) {
+        PathToFiletypeResult::Filetype(FileType::FixedStruct { archival_type: _, fixedstruct_type: t }) => match t {
+            FileTypeFixedStruct::Acct => "0".into(),
+            FileTypeFixedStruct::AcctV3 => "1".into(),
+            FileTypeFixedStruct::Lastlog => "2".into(),
+            FileTypeFixedStruct::Lastlogx => "3".into(),
+            FileTypeFixedStruct::Utmp => "4".into(),
+            FileTypeFixedStruct::Utmpx => "5".into(),
+        },
+        _ => "-".into(),
+    }
+}
+
 fn detect_case(line: &str) -> String {
     let v: Vec<&str> = line.split('\t').collect();
     let path = v[0].to_string();
@@ -605,6 +622,7 @@ fn main() {
         Some("render") => render_case,
         Some("score") => score_case,
         Some("detect") => detect_case,
+        Some("kindof") => kindof_case,
         _ => run_case,
     };
     std::panic::set_hook(Box::new(|_| {}));
